@@ -36,6 +36,19 @@ from cutadapt.modifiers import (AdapterCutter, QualityTrimmer, NextseqQualityTri
 from cutadapt.steps import SingleEndSink, PairedEndSink, SingleEndFilter, PairedEndFilter
 from cutadapt.predicates import TooShort
 
+try:  # concrete-only set-up runs outside CrossHair's tracer (speed only; no symbolic value is involved in it)
+    from crosshair.tracers import NoTracing, ResumedTracing, is_tracing
+except Exception:  # pragma: no cover
+    import contextlib
+
+    def NoTracing():
+        return contextlib.nullcontext()
+
+    ResumedTracing = NoTracing
+
+    def is_tracing():
+        return False
+
 PROPERTY = "C06"
 ENGINE = "crosshair"
 
@@ -49,10 +62,6 @@ def set_param(p):
 
 
 # ------------------------------------------------------------------------------------------ the OS stand-in
-class _Inadmissible(Exception):
-    """the symbolic scheduling choice does not denote a subset of the ready connections (vacuous path)"""
-
-
 class _ContractBreach(Exception):
     """the main process would block forever or reads a message of the wrong kind"""
 
@@ -149,32 +158,46 @@ _SUBSETS = {(n, m): _subsets(n, m) for n in range(1, 5) for m in (False, True)}
 
 
 class _Scheduler:
-    """connection.wait(): the k-th call returns the subset of the ready connections selected by the k-th
-    symbolic choice (optionally in reversed list order)."""
+    """connection.wait().  mode 'subsets' / 'singletons': the k-th call returns the subset (resp. the single
+    connection) of the ready connections selected by the k-th symbolic choice - choice s denotes subset number
+    min(s, number of subsets - 1), so every choice is admissible and every subset is denoted -, optionally in
+    reversed list order.  mode 'drain': a symbolic choice selects the next worker, whose messages are then
+    delivered one group per call until it has finished (every arrival order of the workers' final statistics)."""
 
-    def __init__(self, choices, multi, rev):
+    def __init__(self, choices, mode, rev, resume):
         self.choices = choices
-        self.multi = multi
+        self.mode = mode
         self.rev = rev
+        self.resume = resume      # the caller runs untraced (everything concrete): trace only the choice itself
         self.k = 0
+        self.current = None
+
+    def _choose(self, n):
+        if self.k >= len(self.choices):
+            raise _ContractBreach("more wait() rounds than message groups: the main loop makes no progress")
+        s = self.choices[self.k]
+        self.k += 1
+        if self.resume and _WAS_TRACING[0]:
+            with ResumedTracing():
+                return _conc(s, n - 1)
+        return _conc(s, n - 1)
 
     def wait(self, connections):
         ready = [c for c in connections if c.pending()]
         if not ready:
             raise _ContractBreach("main process waits although no worker will send anything any more")
-        if self.k >= len(self.choices):
-            raise _ContractBreach("more wait() rounds than message groups: the main loop makes no progress")
-        s = self.choices[self.k]
-        self.k += 1
-        subsets = _SUBSETS[(len(ready), self.multi)]
-        if s >= len(subsets):
-            raise _Inadmissible()
-        out = [ready[j] for j in subsets[s]]       # realises s
+        if self.mode == "drain":
+            if self.current is None or not any(c is self.current for c in ready):
+                self.current = ready[self._choose(len(ready))]
+            return [self.current]
+        subsets = _SUBSETS[(len(ready), self.mode == "subsets")]
+        out = [ready[j] for j in subsets[self._choose(len(subsets))]]
         if self.rev:
             out.reverse()
         return out
 
 
+_WAS_TRACING = [False]
 _SCHED = [None]
 
 
@@ -321,7 +344,8 @@ class _FakePipeline:
             chunks = [int(infiles._files[0].getvalue())]
         n = bp1 = bp2 = 0
         for c in chunks:
-            _write_chunk(self.writers, c)
+            with NoTracing():
+                _write_chunk(self.writers, c)
             x = self.contrib[c]
             _apply(self.h, x)
             n = n + x["n"]
@@ -330,10 +354,39 @@ class _FakePipeline:
         return (n, bp1, bp2 if self.paired else None)
 
 
+def _light_init(self, sequence, name):
+    # only the attributes that EndStatistics / AdapterStatistics / AdapterCutter.__init__ read; no aligner and no
+    # k-mer tables are built (matching is not part of C06, and their construction dominates the run time)
+    self.name = name
+    self._debug = False
+    self.sequence = sequence
+    self.max_error_rate = 0.1
+    self.min_overlap = 3
+    self.adapter_wildcards = False
+    self.read_wildcards = False
+    self.indels = True
+    self._force_anywhere = False
+
+
+class _LBack(BackAdapter):
+    __init__ = _light_init
+    effective_length = property(lambda self: len(self.sequence))
+
+
+class _LFront(FrontAdapter):
+    __init__ = _light_init
+    effective_length = property(lambda self: len(self.sequence))
+
+
+class _LAnywhere(AnywhereAdapter):
+    __init__ = _light_init
+    effective_length = property(lambda self: len(self.sequence))
+
+
 def _adapters(tag):
-    return [BackAdapter("ACGTACGTAC", name=tag + "back"), FrontAdapter("TTGGCCAATT", name=tag + "front"),
-            AnywhereAdapter("GGAATTCCGG", name=tag + "any"),
-            LinkedAdapter(FrontAdapter("CCCCAAAA", name=None), BackAdapter("GGGGTTTT", name=None), True, False, name=tag + "linked")]
+    """one adapter per AdapterStatistics variant: back, front, anywhere, linked (real create_statistics())"""
+    return [_LBack("ACGTACGTAC", tag + "back"), _LFront("TTGGCCAATT", tag + "front"), _LAnywhere("GGAATTCCGG", tag + "any"),
+            LinkedAdapter(_LFront("CCCCAAAA", tag + "lf"), _LBack("GGGGTTTT", tag + "lb"), True, False, name=tag + "linked")]
 
 
 def _make_pipeline(config, writers):
@@ -347,12 +400,12 @@ def _make_pipeline(config, writers):
         paired = False
         h["nq"][0] = NextseqQualityTrimmer(20)
         h["q"][0] = QualityTrimmer(0, 10)
-        h["cut"][0] = AdapterCutter(_adapters("s"), times=2)
+        h["cut"][0] = AdapterCutter(_adapters("s"), times=2, index=False)
         h["polya"][0] = PolyATrimmer()
         mods = [h["nq"][0], h["q"][0], h["cut"][0], h["polya"][0]]
     elif config == "single_rc":
         paired = False
-        h["cut"][0] = AdapterCutter(_adapters("s"))
+        h["cut"][0] = AdapterCutter(_adapters("s"), index=False)
         h["rc"] = ReverseComplementer(h["cut"][0])
         mods = [h["rc"]]
     elif config == "plain_paired":
@@ -361,9 +414,9 @@ def _make_pipeline(config, writers):
         paired = True
         h["q"] = [QualityTrimmer(0, 10), QualityTrimmer(0, 10)]
         if config != "paired_r2":
-            h["cut"][0] = AdapterCutter(_adapters("p1"))
+            h["cut"][0] = AdapterCutter(_adapters("p1"), index=False)
         if config != "paired_r1":
-            h["cut"][1] = AdapterCutter(_adapters("p2"))
+            h["cut"][1] = AdapterCutter(_adapters("p2"), index=False)
         h["polya"] = [PolyATrimmer(), PolyATrimmer(revcomp=True)]
         if config == "paired_both":
             h["nq"] = [NextseqQualityTrimmer(20), NextseqQualityTrimmer(20)]
@@ -384,7 +437,7 @@ def _make_pipeline(config, writers):
         mods = [h["pac"]]
     elif config == "paired_rc":
         paired = True
-        h["cut"] = [AdapterCutter(_adapters("p1")), AdapterCutter(_adapters("p2"))]
+        h["cut"] = [AdapterCutter(_adapters("p1"), index=False), AdapterCutter(_adapters("p2"), index=False)]
         h["rc"] = PairedReverseComplementer(h["cut"][0], h["cut"][1])
         mods = [h["rc"]]
     else:
@@ -413,7 +466,7 @@ def _astats(h, i, j):
     return list(h["cut"][i].adapter_statistics.values())[j]
 
 
-def _end(st, end):
+def _end_stats(st, end):
     if hasattr(st, "end"):
         return st.end
     return st.front if end == "front" else st.back
@@ -444,7 +497,7 @@ def _apply(h, x):
         h["rc"].reverse_complemented += x["rc"]
     for (i, j, end, length, errors, cnt, adj, rcn) in x["matches"]:
         st = _astats(h, i, j)
-        es = _end(st, end)
+        es = _end_stats(st, end)
         es.errors[length][errors] += cnt
         if end == "back":
             es.adjacent_bases[_BASES[adj]] += cnt
@@ -575,18 +628,20 @@ def _matches_reference(st, ref, config):
 
 
 # ------------------------------------------------------------------------------------------ the driver
-_T = tuple(range(0, 64))
+def _conc(x, hi):
+    """The concrete value of a symbolic choice: x if 0 <= x < hi, else hi (every int denotes an admissible choice and
+    every choice 0..hi is denoted).  Under CrossHair this is one path per value 0..hi."""
+    for v in range(hi):
+        if x == v:
+            return v
+    return hi
 
 
-def _conc(x):
-    """the concrete value of a small non-negative int (CrossHair: forks over the admissible values)"""
-    return _T[x]
-
-
-def _run_parallel(config, shape, C, W, assign, choices, multi, rev, contribs):
-    """Drive the real run() under the stub.  -> (stats, opener, progress, conns, worker pipelines, procs)"""
-    outfiles, opener, writers = _build_outfiles(shape)
-    main_pipeline = _make_pipeline(config, writers)
+def _run_parallel(config, shape, C, W, assign, choices, mode, rev, contribs, resume=False):
+    """Drive the real run() under the stub.  -> (stats, opener, progress, conns, worker pipelines, outfiles)"""
+    with NoTracing():
+        outfiles, opener, writers = _build_outfiles(shape)
+        main_pipeline = _make_pipeline(config, writers)
     n_files = 2 if main_pipeline.paired else 1
     conns, pipelines, procs = [], [], []
 
@@ -594,7 +649,8 @@ def _run_parallel(config, shape, C, W, assign, choices, multi, rev, contribs):
         # process start-up is outside the claim: each worker gets its own copy of the pipeline and of the proxy
         # files (pickled together, as with the spawn start method), a FIFO to the main process and its chunks
         for w in range(W):
-            pl, pfs = pickle.loads(pickle.dumps((pipeline, proxy_files)))
+            with NoTracing():
+                pl, pfs = pickle.loads(pickle.dumps((pipeline, proxy_files)))
             pl.contrib = contribs
             conn = _Conn(w)
             wp = WorkerProcess.__new__(WorkerProcess)
@@ -618,12 +674,17 @@ def _run_parallel(config, shape, C, W, assign, choices, multi, rev, contribs):
     runner._reader_process = _Proc()
     runner._start_workers = start_workers
     progress = _Progress()
-    _SCHED[0] = _Scheduler(choices, multi, rev)
+    _SCHED[0] = _Scheduler(choices, mode, rev, resume)
     stats = runner.run(main_pipeline, progress, outfiles)
     return stats, opener, progress, conns, pipelines, outfiles
 
 
 def _files_ok(shape, C, opener, outfiles, conns, pipelines):
+    with NoTracing():       # bytes, paths and queue positions only
+        return _files_ok_(shape, C, opener, outfiles, conns, pipelines)
+
+
+def _files_ok_(shape, C, opener, outfiles, conns, pipelines):
     exp = _expected_files(shape, C)
     files = outfiles.binary_files()
     if sorted(f.path for f in files) != sorted(exp):
@@ -641,86 +702,180 @@ def _files_ok(shape, C, opener, outfiles, conns, pipelines):
     return True
 
 
-def _plain_contrib(c, n, bp1, bp2, wcnt, paired):
-    return {"n": n, "bp1": bp1, "bp2": bp2, "written": [(10 + c % 2, (20 + c % 3) if paired else None, wcnt)], "filtered": 0,
+def _serial_stats(config, shape, C, contribs):
+    """the statement literally: the statistics of the single-core run (real SerialPipelineRunner.run) over the same input"""
+    with NoTracing():
+        _of, _op, writers = _build_outfiles(shape)
+        serial_pipeline = _make_pipeline(config, writers)
+    serial_pipeline.contrib = contribs
+    serial_pipeline.serial_chunks = C
+    sr = SerialPipelineRunner.__new__(SerialPipelineRunner)
+    sr._infiles = None
+    return sr.run(serial_pipeline, _Progress(), _of)
+
+
+def _body(config, shape, C, W, assign, choices, mode, rev, contribs, resume):
+    stats, opener, progress, conns, pipelines, outfiles = _run_parallel(config, shape, C, W, assign, choices, mode, rev, contribs, resume)
+    if not _files_ok(shape, C, opener, outfiles, conns, pipelines):
+        return False
+    if not (progress.total == sum(x["n"] for x in contribs)) or progress.closed != 1:
+        return False
+    if not _matches_reference(stats, _reference(config, contribs), config):
+        return False
+    return _snapshot(stats) == _snapshot(_serial_stats(config, shape, C, contribs))
+
+
+def _concrete_body(*args):
+    """Everything is concrete from here on (assignment and keys realised, counters concrete): the loops run at native
+    speed outside the tracer; only the scheduling choice inside wait() is evaluated under the tracer again."""
+    was = is_tracing()
+    with NoTracing():
+        _WAS_TRACING[0] = was
+        return _body(*args, True)
+
+
+def _paired(config):
+    return config.startswith("paired") or config in ("plain_paired", "pair_adapters")
+
+
+def _plain_contrib(c, n, paired):
+    return {"n": n, "bp1": 3 * n + c, "bp2": 2 * n, "written": [(10 + c // 2, (20 + (c + 1) // 2) if paired else None, n)], "filtered": 0,
             "q": (0, 0), "nq": (0, 0), "wa": (0, 0), "rc": 0, "polya": ([], []), "matches": []}
 
 
-def _in(lo, hi, *xs):
-    return all(lo <= x <= hi for x in xs)
+def _assignment(As):
+    C, W = _PARAM["C"], _PARAM["W"]
+    fixed = _PARAM.get("assign_prefix", ())     # this condition covers the assignments that start with assign_prefix
+    return [fixed[c] if c < len(fixed) else _conc(As[c], W - 1) for c in range(C)]
 
 
-def check_schedule(a0: int, a1: int, a2: int, a3: int, a4: int, s0: int, s1: int, s2: int, s3: int, s4: int, s5: int, s6: int, s7: int,
-                   n0: int, n1: int, n2: int, n3: int, n4: int, b0: int, b1: int, b2: int, b3: int, b4: int) -> bool:
+def _schedule(As, Ss, Ns=None):
+    """As = symbolic chunk->worker assignment, Ss = symbolic wait() choices, Ns = symbolic reads per chunk (or None:
+    concrete counters, the large shapes enumerate schedules only)."""
+    C, W, shape, config = _PARAM["C"], _PARAM["W"], _PARAM["files"], _PARAM.get("config", "plain")
+    mode, rev = _PARAM.get("mode", "subsets"), _PARAM.get("rev", False)
+    assign = _assignment(As)
+    choices = list(Ss)[:C + W]
+    if Ns is None:
+        contribs = [_plain_contrib(c, 5 + 3 * c, _paired(config)) for c in range(C)]
+        return _concrete_body(config, shape, C, W, assign, choices, mode, rev, contribs)
+    contribs = [_plain_contrib(c, Ns[c], _paired(config)) for c in range(C)]
+    return _body(config, shape, C, W, assign, choices, mode, rev, contribs, False)
+
+
+# ---- schedules with symbolic counters (traced throughout) -------------------------------------------------
+def check_schedule_n2(a0: int, a1: int, s0: int, s1: int, s2: int, s3: int, s4: int, n0: int, n1: int) -> bool:
     """
-    pre: _in(0, _PARAM["W"] - 1, a0, a1, a2, a3, a4)
-    pre: _in(0, 6, s0, s1, s2, s3, s4, s5, s6, s7)
-    pre: _in(1, 10000, n0, n1, n2, n3, n4) and _in(0, 1000000, b0, b1, b2, b3, b4)
+    pre: 1 <= n0 <= 10000 and 1 <= n1 <= 10000
     post: _
     """
-    C, W, shape, config = _PARAM["C"], _PARAM["W"], _PARAM["files"], _PARAM.get("config", "plain")
-    multi, rev = _PARAM.get("multi", True), _PARAM.get("rev", False)
-    fixed = _PARAM.get("assign_prefix", ())
-    assign = [_conc(a) for a in (a0, a1, a2, a3, a4)[:C]]
-    for i, v in enumerate(fixed):
-        if assign[i] != v:
-            return True            # this condition covers only the assignments that start with assign_prefix
-    choices = [s0, s1, s2, s3, s4, s5, s6, s7][:C + W]
-    paired = config == "plain_paired"
-    ns, bs = (n0, n1, n2, n3, n4), (b0, b1, b2, b3, b4)
-    contribs = [_plain_contrib(c, ns[c], bs[c], bs[c] + c, ns[c], paired) for c in range(C)]
-    try:
-        stats, opener, progress, conns, pipelines, outfiles = _run_parallel(config, shape, C, W, assign, choices, multi, rev, contribs)
-    except _Inadmissible:
-        return True
-    if not _files_ok(shape, C, opener, outfiles, conns, pipelines):
-        return False
-    if not (progress.total == sum(ns[:C])) or progress.closed != 1:
-        return False
-    return _matches_reference(stats, _reference(config, contribs), config)
+    return _schedule((a0, a1), (s0, s1, s2, s3, s4), (n0, n1))
 
 
-# aspects of the statistics conditions: what the four symbolic values of a chunk mean, and their upper bounds
+def check_schedule_n3(a0: int, a1: int, a2: int, s0: int, s1: int, s2: int, s3: int, s4: int, s5: int, n0: int, n1: int, n2: int) -> bool:
+    """
+    pre: 1 <= n0 <= 10000 and 1 <= n1 <= 10000 and 1 <= n2 <= 10000
+    post: _
+    """
+    return _schedule((a0, a1, a2), (s0, s1, s2, s3, s4, s5), (n0, n1, n2))
+
+
+# ---- schedules only (no precondition: _conc maps every int to an admissible choice) -----------------------------
+def check_schedule_c0(s0: int, s1: int, s2: int) -> bool:
+    """
+    post: _
+    """
+    return _schedule((), (s0, s1, s2))
+
+
+def check_schedule_c1(a0: int, s0: int, s1: int, s2: int, s3: int) -> bool:
+    """
+    post: _
+    """
+    return _schedule((a0,), (s0, s1, s2, s3))
+
+
+def check_schedule_c2(a0: int, a1: int, s0: int, s1: int, s2: int, s3: int, s4: int) -> bool:
+    """
+    post: _
+    """
+    return _schedule((a0, a1), (s0, s1, s2, s3, s4))
+
+
+def check_schedule_c3(a0: int, a1: int, a2: int, s0: int, s1: int, s2: int, s3: int, s4: int, s5: int) -> bool:
+    """
+    post: _
+    """
+    return _schedule((a0, a1, a2), (s0, s1, s2, s3, s4, s5))
+
+
+def check_schedule_c4(a0: int, a1: int, a2: int, a3: int, s0: int, s1: int, s2: int, s3: int, s4: int, s5: int, s6: int) -> bool:
+    """
+    post: _
+    """
+    return _schedule((a0, a1, a2, a3), (s0, s1, s2, s3, s4, s5, s6))
+
+
+def check_schedule_c5(a0: int, a1: int, a2: int, a3: int, a4: int, s0: int, s1: int, s2: int, s3: int, s4: int, s5: int, s6: int, s7: int) -> bool:
+    """
+    post: _
+    """
+    return _schedule((a0, a1, a2, a3, a4), (s0, s1, s2, s3, s4, s5, s6, s7))
+
+
+# ---- statistics ---------------------------------------------------------------------------------------------------
+# aspects of the keyed statistics conditions: which dictionary key of a chunk is symbolic, and its largest value
 _ASPECTS = {
-    "counters": (1000, 1000, 1000, 1000),   # reads, quality-trimmed bp, reads with adapters, filtered / reverse-complemented
-    "lengths": (2, 2, 3, 1000),             # length of R1, length of R2, number of reads written with these lengths, reads
-    "polya": (2, 3, 2, 3),                  # tail length key / count on R1, on R2
-    "adapter": (2, 1, 3, 4),                # removed length, errors, count, adjacent base
+    "lengths1": 2,        # length of the R1 reads written by the chunk
+    "lengths2": 2,        # length of the R2 reads written by the chunk
+    "polya1": 2,          # poly-A tail length on R1
+    "polya2": 2,          # poly-T head length on R2
+    "adapter_len": 2,     # length of the removed sequence in the selected adapter's error table
+    "adapter_err": 1,     # number of errors
+    "adapter_adj": 4,     # adjacent base (A, C, G, T, other); 3' ends only
 }
 
 
-def _stats_contrib(aspect, config, c, v, sel):
-    paired = config.startswith("paired") or config in ("plain_paired", "pair_adapters")
-    x = {"n": 7 + c, "bp1": 100 + c, "bp2": 90 + c, "written": [(10 + c % 2, (20 + c % 3) if paired else None, 3 + c)], "filtered": c,
-         "q": (c, 2 * c), "nq": (1, c), "wa": (c, c + 1), "rc": c, "polya": ([(c % 2, 1 + c)], [(1, 2)]), "matches": []}
+def _stats_contrib(aspect, config, c, key, cnt, sel):
+    """contribution of chunk c; key / cnt are the symbolic parts (key already concrete for the keyed aspects)"""
+    paired = _paired(config)
+    # concrete parts: the dictionary keys of different chunks collide (c // 2) and differ (c = 2), so merging has to add
+    x = {"n": 7 + c, "bp1": 100 + c, "bp2": 90 + c, "written": [(10 + c // 2, (20 + (c + 1) // 2) if paired else None, 3 + c)], "filtered": c,
+         "q": (c, 2 * c), "nq": (1, c), "wa": (c, c + 1), "rc": c, "polya": ([(c // 2, 1 + c)], [((c + 1) // 2, 2)]), "matches": []}
     i_sel, j_sel, end_sel = sel
-    # every adapter statistics object of the configuration gets a concrete contribution from every chunk
+    # in the keyed aspects every adapter statistics object of the configuration gets a concrete contribution from every chunk
     for i in (0, 1):
         for j, ends in enumerate((("back",), ("front",), ("front", "back"), ("front", "back"))):
             for end in ends:
-                x["matches"].append((i, j, end, 3 + (c + j) % 2, c % 2, 1 + c, (c + j) % 5, c % 2))
+                if aspect != "counters" or (c + i + j) % 4 == 0:
+                    x["matches"].append((i, j, end, 3 + (c // 2 + j) % 2, (c + 1) // 2, 1 + c, (c // 2 + j) % 5, c % 2))
     if aspect == "counters":
-        x["n"] = v[0]
-        x["q"] = (v[1], v[1] + 1)
-        x["nq"] = (v[1] + 2, 3)
-        x["wa"] = (v[2], v[2] + v[0])
-        x["filtered"] = v[3]
-        x["rc"] = v[3] + 1
-        x["bp1"] = v[0] * 3 + v[1]
-        x["bp2"] = v[0] * 2
-    elif aspect == "lengths":
-        k1, k2, cnt = _conc(v[0]), _conc(v[1]), v[2]
-        x["written"] = [(k1, k2 if paired else None, cnt)] if cnt > 0 else []
-        x["n"] = v[3]
-    elif aspect == "polya":
-        x["polya"] = ([(_conc(v[0]), v[1])] if v[1] > 0 else [], [(_conc(v[2]), v[3])] if v[3] > 0 else [])
-    elif aspect == "adapter":
-        length, errors, cnt, adj = _conc(v[0]), _conc(v[1]), v[2], _conc(v[3])
-        if cnt > 0:
-            x["matches"].append((i_sel, j_sel, end_sel, length, errors, cnt, adj, cnt - 1))
-    if config in ("single", "single_rc", "plain"):
-        x["matches"] = [m for m in x["matches"] if m[0] == 0]
-    elif config == "paired_r1":
+        x["n"] = key
+        x["q"] = (cnt, cnt + 1)
+        x["nq"] = (cnt + 2, 3)
+        x["wa"] = (cnt, cnt + key)
+        x["filtered"] = cnt + c
+        x["rc"] = cnt + 1
+        x["bp1"] = key * 3 + cnt
+        x["bp2"] = key * 2
+        x["written"] = [(10 + c // 2, (20 + (c + 1) // 2) if paired else None, key + 1)]
+        x["polya"] = ([(c // 2, 1 + cnt)], [((c + 1) // 2, 2 + key)])
+        x["matches"].append((i_sel, j_sel, end_sel, 2, 1, cnt + 1, c // 2, cnt))
+    elif aspect == "lengths1":
+        x["written"] = [(key, (20 + (c + 1) // 2) if paired else None, cnt + 1)]
+    elif aspect == "lengths2":
+        x["written"] = [(10 + c // 2, key, cnt + 1)]
+    elif aspect == "polya1":
+        x["polya"] = ([(key, cnt + 1)], [((c + 1) // 2, 2)])
+    elif aspect == "polya2":
+        x["polya"] = ([(c // 2, 1 + c)], [(key, cnt + 1)])
+    elif aspect == "adapter_len":
+        x["matches"].append((i_sel, j_sel, end_sel, key, 1, cnt + 1, c // 2, cnt))
+    elif aspect == "adapter_err":
+        x["matches"].append((i_sel, j_sel, end_sel, 2, key, cnt + 1, c // 2, cnt))
+    elif aspect == "adapter_adj":
+        x["matches"].append((i_sel, j_sel, end_sel, 1 + c // 2, 0, cnt + 1, key, cnt))
+    if config in ("single", "single_rc", "plain", "paired_r1"):
         x["matches"] = [m for m in x["matches"] if m[0] == 0]
     elif config == "paired_r2":
         x["matches"] = [m for m in x["matches"] if m[0] == 1]
@@ -730,56 +885,69 @@ def _stats_contrib(aspect, config, c, v, sel):
     return x
 
 
-def _xok(vs):
-    ub = _ASPECTS[_PARAM["aspect"]]
-    return all(0 <= v <= ub[k % 4] for k, v in enumerate(vs))
+def _sel_default(config):
+    return _PARAM.get("sel", (1, 0, "back") if config == "paired_r2" else (0, 0, "back"))
 
 
-def check_stats(a0: int, a1: int, a2: int, s0: int, s1: int, s2: int, s3: int, s4: int, s5: int,
-                x0: int, x1: int, x2: int, x3: int, x4: int, x5: int, x6: int, x7: int, x8: int, x9: int, x10: int, x11: int) -> bool:
+def _counters(As, Ss, Ns, Cs):
+    """symbolic plain counters (two per chunk), symbolic assignment and symbolic arrival order of the workers' final
+    messages; traced throughout"""
+    C, W, config = _PARAM["C"], _PARAM["W"], _PARAM["config"]
+    shape = ("P",) if _paired(config) else ("R",)
+    assign = _assignment(As)
+    contribs = [_stats_contrib("counters", config, c, Ns[c], Cs[c], _sel_default(config)) for c in range(C)]
+    return _body(config, shape, C, W, assign, list(Ss)[:W], "drain", False, contribs, False)
+
+
+def _keys(As, Ss, Ks):
+    """symbolic dictionary keys (one per chunk), symbolic assignment and arrival order; concrete counts"""
+    C, W, config, aspect = _PARAM["C"], _PARAM["W"], _PARAM["config"], _PARAM["aspect"]
+    shape = ("P",) if _paired(config) else ("R",)
+    assign = _assignment(As)
+    keys = [_conc(k, _ASPECTS[aspect]) for k in Ks[:C]]
+    contribs = [_stats_contrib(aspect, config, c, keys[c], 2 * c + 1, _sel_default(config)) for c in range(C)]
+    return _concrete_body(config, shape, C, W, assign, list(Ss)[:W], "drain", False, contribs)
+
+
+def check_counters_c2(a0: int, a1: int, s0: int, s1: int, s2: int, n0: int, n1: int, c0: int, c1: int) -> bool:
     """
-    pre: _in(0, _PARAM["W"] - 1, a0, a1, a2)
-    pre: _in(0, 2, s0, s1, s2, s3, s4, s5)
-    pre: _xok((x0, x1, x2, x3, x4, x5, x6, x7, x8, x9, x10, x11))
+    pre: 0 <= n0 <= 1000 and 0 <= n1 <= 1000 and 0 <= c0 <= 1000 and 0 <= c1 <= 1000
     post: _
     """
-    C, W, config, aspect = _PARAM["C"], _PARAM["W"], _PARAM["config"], _PARAM["aspect"]
-    shape = ("P",) if config.startswith("paired") or config in ("plain_paired", "pair_adapters") else ("R",)
-    sel = _PARAM.get("sel", (0, 0, "back"))
-    xs = (x0, x1, x2, x3, x4, x5, x6, x7, x8, x9, x10, x11)
-    assign = [_conc(a) for a in (a0, a1, a2)[:C]]
-    choices = [s0, s1, s2, s3, s4, s5][:C + W]
-    contribs = [_stats_contrib(aspect, config, c, xs[4 * c:4 * c + 4], sel) for c in range(C)]
-    try:
-        stats, opener, progress, conns, pipelines, outfiles = _run_parallel(config, shape, C, W, assign, choices, False, False, contribs)
-    except _Inadmissible:
-        return True
-    if not _files_ok(shape, C, opener, outfiles, conns, pipelines):
-        return False
-    if not (progress.total == sum(x["n"] for x in contribs)):
-        return False
-    if not _matches_reference(stats, _reference(config, contribs), config):
-        return False
-    # the statement literally: the statistics of the single-core run over the same input
-    _of, _op, writers = _build_outfiles(shape)
-    serial_pipeline = _make_pipeline(config, writers)
-    serial_pipeline.contrib = contribs
-    serial_pipeline.serial_chunks = C
-    sr = SerialPipelineRunner.__new__(SerialPipelineRunner)
-    sr._infiles = None
-    serial = sr.run(serial_pipeline, _Progress(), _of)
-    return _snapshot(stats) == _snapshot(serial)
+    return _counters((a0, a1), (s0, s1, s2), (n0, n1), (c0, c1))
+
+
+def check_counters_c3(a0: int, a1: int, a2: int, s0: int, s1: int, s2: int, n0: int, n1: int, n2: int, c0: int, c1: int, c2: int) -> bool:
+    """
+    pre: 0 <= n0 <= 1000 and 0 <= n1 <= 1000 and 0 <= n2 <= 1000 and 0 <= c0 <= 1000 and 0 <= c1 <= 1000 and 0 <= c2 <= 1000
+    post: _
+    """
+    return _counters((a0, a1, a2), (s0, s1, s2), (n0, n1, n2), (c0, c1, c2))
+
+
+def check_keys_c2(a0: int, a1: int, s0: int, s1: int, s2: int, k0: int, k1: int) -> bool:
+    """
+    post: _
+    """
+    return _keys((a0, a1), (s0, s1, s2), (k0, k1))
+
+
+def check_keys_c3(a0: int, a1: int, a2: int, s0: int, s1: int, s2: int, k0: int, k1: int, k2: int) -> bool:
+    """
+    post: _
+    """
+    return _keys((a0, a1, a2), (s0, s1, s2), (k0, k1, k2))
 
 
 # ------------------------------------------------------------------------------------------ conditions
 CONDITIONS = []
 
 
-def _sched(C, W, files, multi=True, rev=False, config="plain", prefix=(), timeout=300, thorough_only=False):
-    name = "schedule/C=%d/W=%d/files=%s/%s%s%s%s" % (C, W, "".join(files), "subsets" if multi else "singletons", "/reversed" if rev else "",
-                                                    "/" + config if config != "plain" else "", ("/assign=" + "".join(map(str, prefix)) + "*") if prefix else "")
-    CONDITIONS.append({"name": name, "fn": "check_schedule", "timeout": timeout, "thorough_only": thorough_only,
-                       "param": {"C": C, "W": W, "files": tuple(files), "multi": multi, "rev": rev, "config": config, "assign_prefix": tuple(prefix)}})
+def _sched(C, W, files, mode="subsets", rev=False, config="plain", prefix=(), sym_n=False, timeout=300, thorough_only=False):
+    name = "schedule/C=%d/W=%d/files=%s/%s%s%s%s%s" % (C, W, "".join(files), mode, "/reversed" if rev else "", "/" + config if config != "plain" else "",
+                                                      ("/assign=" + "".join(map(str, prefix)) + "*") if prefix else "", "/symbolic-counters" if sym_n else "")
+    CONDITIONS.append({"name": name, "fn": "check_schedule_%s%d" % ("n" if sym_n else "c", C), "timeout": timeout, "thorough_only": thorough_only,
+                       "param": {"C": C, "W": W, "files": tuple(files), "mode": mode, "rev": rev, "config": config, "assign_prefix": tuple(prefix)}})
 
 
 def _stat(C, W, config, aspect, sel=None, timeout=300, thorough_only=False):
@@ -787,53 +955,64 @@ def _stat(C, W, config, aspect, sel=None, timeout=300, thorough_only=False):
     p = {"C": C, "W": W, "config": config, "aspect": aspect}
     if sel:
         p["sel"] = sel
-    CONDITIONS.append({"name": name, "fn": "check_stats", "timeout": timeout, "thorough_only": thorough_only, "param": p})
+    CONDITIONS.append({"name": name, "fn": "check_%s_c%d" % ("counters" if aspect == "counters" else "keys", C), "timeout": timeout, "thorough_only": thorough_only, "param": p})
 
 
-# the small shapes: every C <= 3 with every W <= 3, all subsets
+# schedules: every assignment x every sequence of wait() results, per shape
 _sched(0, 1, ("R",))
-_sched(0, 3, ("T", "P"))
+_sched(0, 3, ("T", "P"), config="plain_paired")
 _sched(1, 1, ("R",))
 _sched(1, 3, ("T", "R"))
-_sched(2, 2, ("T", "P"), config="plain_paired")
+_sched(2, 1, ("I",), config="plain_paired")
+_sched(2, 2, ("T", "P"), config="plain_paired", sym_n=True)
 _sched(2, 3, ("T", "P"), config="plain_paired")
-_sched(3, 2, ("P", "R"))
+_sched(2, 3, ("T", "R"), rev=True)
+_sched(3, 1, ("T", "R"))
+_sched(3, 2, ("P", "R"), config="plain_paired", sym_n=True)
 _sched(3, 2, ("T", "I"), rev=True, config="plain_paired")
 _sched(4, 1, ("T", "P"), config="plain_paired")
-_sched(4, 2, ("T", "P"), config="plain_paired")
 _sched(4, 2, ("R", "T", "R"), rev=True)
+_sched(4, 2, ("T", "P"), config="plain_paired")
 for _a in range(3):
     _sched(3, 3, ("T", "P"), config="plain_paired", prefix=(_a,), timeout=900)
-for _a in range(3):
     for _b in range(3):
-        _sched(4, 3, ("T", "P"), multi=False, config="plain_paired", prefix=(_a, _b), timeout=900)
-        for _c in range(3):
-            _sched(4, 3, ("T", "P"), multi=True, config="plain_paired", prefix=(_a, _b, _c), timeout=1800, thorough_only=True)
-for _a in range(2):
-    _sched(5, 2, ("T", "P"), config="plain_paired", prefix=(_a,), timeout=1800, thorough_only=True)
-for _a in range(3):
-    for _b in range(3):
-        for _c in range(3):
-            _sched(5, 3, ("T", "P"), multi=False, config="plain_paired", prefix=(_a, _b, _c), timeout=3000, thorough_only=True)
+        _sched(4, 3, ("T", "P"), mode="singletons", config="plain_paired", prefix=(_a, _b), timeout=900)
+        _sched(4, 3, ("T", "P"), config="plain_paired", prefix=(_a, _b), timeout=2400, thorough_only=True)
+        _sched(5, 3, ("T", "P"), mode="singletons", config="plain_paired", prefix=(_a, _b), timeout=3000, thorough_only=True)
+_sched(5, 2, ("T", "P"), config="plain_paired", timeout=1800, thorough_only=True)
+_sched(3, 3, ("T", "P"), config="plain_paired", sym_n=True, timeout=3000, thorough_only=True)
 
-for _cfg in ("plain", "single", "single_rc", "plain_paired", "paired_r1", "paired_r2", "paired_both", "pair_adapters", "paired_rc"):
+# statistics: every assignment x every arrival order of the workers' final messages x the symbolic quantities
+_CONFIGS = ("plain", "single", "single_rc", "plain_paired", "paired_r1", "paired_r2", "paired_both", "pair_adapters", "paired_rc")
+for _cfg in _CONFIGS:
     _stat(3, 2, _cfg, "counters")
-    _stat(2, 3, _cfg, "counters")
-for _cfg in ("plain", "plain_paired"):
-    _stat(3, 2, _cfg, "lengths", timeout=900)
-    _stat(2, 3, _cfg, "lengths", timeout=900)
-for _cfg in ("single", "paired_both", "paired_r2"):
-    _stat(3, 2, _cfg, "polya", timeout=900)
-    _stat(2, 3, _cfg, "polya", timeout=900, thorough_only=True)
+    _stat(2, 3, _cfg, "counters", timeout=600)
+    _stat(3, 3, _cfg, "counters", timeout=1800, thorough_only=True)
+for _cfg, _asp in (("plain", "lengths1"), ("plain_paired", "lengths1"), ("plain_paired", "lengths2"), ("single", "polya1"), ("paired_both", "polya1"),
+                   ("paired_both", "polya2"), ("paired_r2", "polya2")):
+    _stat(3, 2, _cfg, _asp)
+    _stat(2, 3, _cfg, _asp, thorough_only=(_cfg, _asp) not in (("plain", "lengths1"), ("plain_paired", "lengths2"), ("paired_both", "polya2")))
+    _stat(3, 3, _cfg, _asp, timeout=900, thorough_only=True)
 # adapter j: 0 back (BackAdapterStatistics), 1 front (FrontAdapterStatistics), 2 anywhere, 3 linked
-for _cfg, _sels in (("single", ((0, 0, "back"), (0, 1, "front"), (0, 2, "front"), (0, 2, "back"), (0, 3, "front"), (0, 3, "back"))),
-                    ("single_rc", ((0, 0, "back"), (0, 2, "back"))),
+for _j, _e in ((0, "back"), (1, "front"), (2, "front"), (2, "back"), (3, "front"), (3, "back")):
+    for _asp in ("adapter_len", "adapter_err") + (("adapter_adj",) if _e == "back" else ()):
+        _stat(2, 2, "single", _asp, sel=(0, _j, _e))
+        _stat(3, 2, "single", _asp, sel=(0, _j, _e), timeout=900, thorough_only=True)
+        _stat(2, 3, "single", _asp, sel=(0, _j, _e), timeout=900, thorough_only=True)
+    _stat(3, 2, "single", "adapter_len", sel=(0, _j, _e), thorough_only=_j not in (1, 3))
+    _stat(2, 3, "single", "adapter_len", sel=(0, _j, _e), thorough_only=_j not in (0, 2))
+for _cfg, _sels in (("single_rc", ((0, 0, "back"), (0, 2, "front"))),
                     ("pair_adapters", ((0, 3, "back"), (1, 1, "front"))),
                     ("paired_rc", ((1, 0, "back"), (0, 2, "front"))),
-                    ("paired_both", ((1, 3, "front"),))):
+                    ("paired_both", ((1, 3, "front"), (0, 2, "back"))),
+                    ("paired_r2", ((1, 3, "back"),))):
     for _sel in _sels:
-        _stat(3, 2, _cfg, "adapter", sel=_sel, timeout=900)
-        _stat(2, 3, _cfg, "adapter", sel=_sel, timeout=900, thorough_only=True)
+        _stat(2, 2, _cfg, "adapter_len", sel=_sel)
+        _stat(2, 2, _cfg, "adapter_err", sel=_sel)
+        _stat(2, 3, _cfg, "adapter_len", sel=_sel, thorough_only=True)
+        _stat(3, 2, _cfg, "adapter_err", sel=_sel, thorough_only=True)
+_seen = set()
+CONDITIONS = [c for c in CONDITIONS if not (c["name"] in _seen or _seen.add(c["name"]))]
 
 
 def describe():
